@@ -14,6 +14,11 @@ PROBE_BIN = os.path.join(TARGET, "release", "cgt-probe")
 CLI_BIN = os.path.join(TARGET, "release", "cgt-tool")
 
 
+def hooks_available() -> bool:
+    """False when the last build had to leave the verif-hooks feature out (see build.py)."""
+    return not os.path.exists(os.path.join(TARGET, ".hooks_off"))
+
+
 class ProbeDied(Exception):
     pass
 
